@@ -110,7 +110,16 @@ fn oracle() -> Oracle {
                     }
                 }
             }
-            Some(_) => None,
+            // after the deviations: the rows are those the program prescribes, computed from what the
+            // driver returned (by name) in the latest output-reading call - the deviating answer included
+            Some(_) => match r.items.get(k) {
+                Some(ri @ RefItem::Row(_)) if item.is_row() => {
+                    st.witness("row_after_a_deviation_compared");
+                    let p2 = Proj { input_values: true, expected: true, output: false, checked_kind: true, lines: false, vars: false, verdicts: false };
+                    item_mismatch(ri, item, p2, None, None).and_then(|m| fail(format!("rows after the deviation: item {k}: {m}")))
+                }
+                _ => None,
+            },
         }
     })
 }
@@ -361,7 +370,7 @@ pub fn run(tier: Tier, seed: u64) -> i32 {
             "rows before the deviation are compared with the reference interpreter's fault-free run; the attribution rule is checked against the driver's own log for every returned row".into(),
             "a layout deviation in the discarded answer of a mid-clock call (driver without write_input override) is not specified by the property and is not injected".into(),
         ],
-        required_witnesses: vec!["fault_at_the_constructor_call", "fault_at_an_output_reading_call", "fault_at_a_write_only_call", "layout_deviation_at_a_checked_row", "returned_row_attribution_checked", "one_loaded_test_used_twice_with_different_drivers", "second_deviation_of_a_history", "iterator_advanced_with_nth", "driver_with_io_errors"],
+        required_witnesses: vec!["fault_at_the_constructor_call", "fault_at_an_output_reading_call", "fault_at_a_write_only_call", "layout_deviation_at_a_checked_row", "returned_row_attribution_checked", "one_loaded_test_used_twice_with_different_drivers", "second_deviation_of_a_history", "iterator_advanced_with_nth", "driver_with_io_errors", "row_after_a_deviation_compared"],
         exhaustive_note: "every call index x every deviation for every case".into(),
         e1: true,
     };
